@@ -124,9 +124,13 @@ def t_len(a):
     return 0 if a.length == -1 else a.length
 
 
-def dump_params(ps):
+def dump_params(ps, sites=None):
+    """sites (optional list) collects the Struct objects of the literal parameters in
+    dump (= source) order, for the per-site identity check of dump_process"""
     out = []
     for p in ps:
+        if isinstance(p, Struct) and sites is not None:
+            sites.append(p)
         if isinstance(p, str):
             out.append(("var", p))
         elif isinstance(p, list):
@@ -142,16 +146,16 @@ def dump_outs(d):
     return [(k, dump_vtype(v)) for k, v in d.items()]
 
 
-def dump_stmt(s):
+def dump_stmt(s, sites=None):
     if isinstance(s, Service):
-        return ("service", s.name, dump_params(s.input_parameters), dump_outs(s.output_parameters))
+        return ("service", s.name, dump_params(s.input_parameters, sites), dump_outs(s.output_parameters))
     if isinstance(s, TaskCall):
-        return ("call", s.name, dump_params(s.input_parameters), dump_outs(s.output_parameters))
+        return ("call", s.name, dump_params(s.input_parameters, sites), dump_outs(s.output_parameters))
     if isinstance(s, Parallel):
-        return ("parallel", [(c.name, dump_params(c.input_parameters), dump_outs(c.output_parameters))
+        return ("parallel", [(c.name, dump_params(c.input_parameters, sites), dump_outs(c.output_parameters))
                              for c in s.task_calls])
     if isinstance(s, WhileLoop):
-        return ("while", dump_expr(s.expression), [dump_stmt(x) for x in s.statements])
+        return ("while", dump_expr(s.expression), [dump_stmt(x, sites) for x in s.statements])
     if isinstance(s, CountingLoop):
         if isinstance(s.limit, int) and not isinstance(s.limit, bool):
             lim = ("int", s.limit)
@@ -159,10 +163,10 @@ def dump_stmt(s):
             lim = ("path", s.limit[0], [parse_pelem(x) for x in s.limit[1:]])
         else:
             raise DumpError("limit: %r" % (s.limit,))
-        return ("count", bool(s.parallel), s.counting_variable, lim, [dump_stmt(x) for x in s.statements])
+        return ("count", bool(s.parallel), s.counting_variable, lim, [dump_stmt(x, sites) for x in s.statements])
     if isinstance(s, Condition):
-        return ("cond", dump_expr(s.expression), [dump_stmt(x) for x in s.passed_stmts],
-                [dump_stmt(x) for x in s.failed_stmts])
+        return ("cond", dump_expr(s.expression), [dump_stmt(x, sites) for x in s.passed_stmts],
+                [dump_stmt(x, sites) for x in s.failed_stmts])
     raise DumpError("statement: %r" % (s,))
 
 
@@ -173,12 +177,37 @@ def dump_process(process):
             raise DumpError("struct key %r != name %r" % (k, s.name))
         structs.append({"name": s.name, "attrs": [(n, dump_vtype(t)) for n, t in s.attributes.items()]})
     tasks = []
+    sites = []
     for k, t in process.tasks.items():
         if k != t.name:
             raise DumpError("task key %r != name %r" % (k, t.name))
         tasks.append({"name": t.name, "ins": [(n, dump_vtype(ty)) for n, ty in t.input_parameters.items()],
-                      "body": [dump_stmt(s) for s in t.statements], "outs": list(t.output_parameters)})
+                      "body": [dump_stmt(s, sites) for s in t.statements], "outs": list(t.output_parameters)})
+    check_literal_sites(sites)
     return {"structs": structs, "tasks": tasks}
+
+
+def check_literal_sites(sites):
+    """every struct literal written in the text is its own object, positioned at its own place:
+    no object is shared between two call sites, and the contexts follow the source order"""
+    seen = set()
+    last = -1
+    for st in sites:
+        if id(st) in seen:
+            raise DumpError("one Struct object is shared by two literal sites (named %r)" % (st.name,))
+        seen.add(id(st))
+        ctx = st.context
+        try:
+            idx = ctx.start.tokenIndex
+            first = ctx.start.text
+        except AttributeError:
+            raise DumpError("literal %r has no parse context" % (st.name,))
+        if first != st.name:
+            raise DumpError("literal named %r is positioned at the token %r" % (st.name, first))
+        if idx <= last:
+            raise DumpError("literal %r is positioned before an earlier literal (token %d after %d)"
+                            % (st.name, idx, last))
+        last = idx
 
 
 def visit_only(text):
